@@ -1,6 +1,6 @@
 (* C18 - wq_range: for strictly positive weights and 0 <= p <= 1 the repo's weighted quantile of a
    non-missing cell is defined and lies between the smallest and the largest valid value of the cell. *)
-From Coq Require Import ZArith QArith Qcanon List Bool Lia Lra Lqa ZifyBool Sorting.Sorted.
+From Coq Require Import ZArith QArith Qcanon List Bool Lia Lqa ZifyBool Sorting.Sorted.
 From Catii Require Import Cube.XStats Cube.XStatsSpec Cube.XStatsCell Cube.XStatsBase Cube.XStatsGroup
   Cube.XStatsQuantile Cube.XStatsWQ.
 Import ListNotations.
